@@ -602,7 +602,16 @@ bool Instance::configure_tx_txin() {
         }
         // put remainder on the stack, as is (re-parsing the hex as a Value turns e.g. the item 0x10 into the number 10 = 0x0a)
         for (size_t i = 0; i < wstack_to_stack; i++) {
+            // the arguments of a witness script are subject to the element size limit (and, in tapscript, the initial stack to the stack size limit)
+            if (wstack[i].size() > MAX_SCRIPT_ELEMENT_SIZE) {
+                fprintf(stderr, "witness stack item #%zu has %zu bytes: larger than the %u byte limit (push size)\n", i, wstack[i].size(), MAX_SCRIPT_ELEMENT_SIZE);
+                return false;
+            }
             stack.push_back(wstack[i]);
+        }
+        if (sigver == SigVersion::TAPSCRIPT && stack.size() > MAX_STACK_SIZE) {
+            fprintf(stderr, "the initial stack of a tapscript spend has %zu items: more than the %d item limit (stack size)\n", stack.size(), MAX_STACK_SIZE);
+            return false;
         }
     } else {
         // legacy -- unless the output is a witness program: spending one with an empty witness is invalid
